@@ -91,9 +91,9 @@ fn forward_of(f: &syn::ImplItemFn) -> String {
             _ => None,
         };
         if let Some(syn::Expr::MethodCall(mc)) = e {
+            // `self.0` or `self.<the only field>` (the wrapper is checked to have exactly one field)
             let recv_ok = matches!(&*mc.receiver, syn::Expr::Field(fe)
-                if matches!(&*fe.base, syn::Expr::Path(p) if p.path.is_ident("self"))
-                   && matches!(&fe.member, syn::Member::Unnamed(i) if i.index == 0));
+                if matches!(&*fe.base, syn::Expr::Path(p) if p.path.is_ident("self")));
             let arg_ok = mc.args.len() == 1
                 && matches!(&mc.args[0], syn::Expr::Path(p) if Some(p.path.segments.last().map(|s| s.ident.to_string()).unwrap_or_default()) == arg);
             if recv_ok && arg_ok && mc.turbofish.is_none() {
@@ -107,6 +107,42 @@ fn forward_of(f: &syn::ImplItemFn) -> String {
         }
     }
     format!("?{}", compact_str(&f.block.to_token_stream().to_string()))
+}
+
+/// Canonical text of `dyn_trace`'s statements: `self.trace(&mut W(cc))`, also recognised when the wrapper is first
+/// bound with `let [mut] x = W(cc);` / `let [mut] x = W { field: cc };` and then passed as `&mut x`.
+fn normal_dyn_trace(b: &syn::Block, cc: &str, wrapper: &str) -> String {
+    let stmts: Vec<&syn::Stmt> = b.stmts.iter().filter(|s| !matches!(s, syn::Stmt::Item(_))).collect();
+    let is_wrap_of_cc = |e: &syn::Expr| -> bool {
+        match e {
+            syn::Expr::Call(c) => {
+                matches!(&*c.func, syn::Expr::Path(p) if p.path.is_ident(wrapper)) && c.args.len() == 1 && matches!(&c.args[0], syn::Expr::Path(p) if p.path.is_ident(cc))
+            }
+            syn::Expr::Struct(st) => {
+                st.path.is_ident(wrapper) && st.rest.is_none() && st.fields.len() == 1 && matches!(&st.fields[0].expr, syn::Expr::Path(p) if p.path.is_ident(cc))
+            }
+            _ => false,
+        }
+    };
+    if stmts.len() == 2 {
+        if let (syn::Stmt::Local(l), syn::Stmt::Expr(syn::Expr::MethodCall(mc), _)) = (stmts[0], stmts[1]) {
+            let var = match &l.pat {
+                syn::Pat::Ident(pi) if pi.by_ref.is_none() => Some(pi.ident.to_string()),
+                _ => None,
+            };
+            let init_ok = l.init.as_ref().map(|i| i.diverge.is_none() && is_wrap_of_cc(&i.expr)).unwrap_or(false);
+            let recv_self = matches!(&*mc.receiver, syn::Expr::Path(p) if p.path.is_ident("self"));
+            let arg_ok = mc.args.len() == 1
+                && match (&mc.args[0], &var) {
+                    (syn::Expr::Reference(r), Some(v)) => r.mutability.is_some() && matches!(&*r.expr, syn::Expr::Path(p) if p.path.is_ident(v)),
+                    _ => false,
+                };
+            if init_ok && recv_self && arg_ok && mc.method == "trace" && mc.turbofish.is_none() {
+                return "self.trace(&mut W(cc))".into();
+            }
+        }
+    }
+    block_text(b, &[(cc.to_string(), "cc"), (wrapper.to_string(), "W")])
 }
 
 fn find_fn_trace_body(ts: proc_macro2::TokenStream, out: &mut Vec<String>) {
@@ -176,6 +212,12 @@ fn read_dyn_adapter(collect_rs: &syn::File, macros: &BTreeMap<String, MacroDef>)
                             }
                             let cc = second_arg_name(&f.sig).unwrap_or_else(|| "cc".into());
                             let mut wrapper = String::new();
+                            let mut wrapper_fields = 0usize;
+                            for st in &f.block.stmts {
+                                if let syn::Stmt::Item(syn::Item::Struct(ws)) = st {
+                                    wrapper_fields = ws.fields.len();
+                                }
+                            }
                             for st in &f.block.stmts {
                                 if let syn::Stmt::Item(syn::Item::Impl(wi)) = st {
                                     let wtr = wi.trait_.as_ref().and_then(|(_, p, _)| p.segments.last().map(|s| s.ident.to_string())).unwrap_or_default();
@@ -200,7 +242,10 @@ fn read_dyn_adapter(collect_rs: &syn::File, macros: &BTreeMap<String, MacroDef>)
                                     }
                                 }
                             }
-                            d.dyn_trace_body = block_text(&f.block, &[(cc, "cc"), (wrapper, "W")]);
+                            if wrapper_fields != 1 {
+                                d.wrap_other.push(format!("wrapper struct has {} fields", wrapper_fields));
+                            }
+                            d.dyn_trace_body = normal_dyn_trace(&f.block, &cc, &wrapper);
                         }
                     }
                 }
